@@ -1,6 +1,7 @@
 import CedarVerif.Lemmas.SyntaxSound
 import CedarVerif.Lemmas.SyntaxSplitOn
 import CedarVerif.Lemmas.SyntaxPolicy
+import CedarVerif.Lemmas.SyntaxPolicySound
 import CedarVerif.Cedar.Eval
 /-
 C05 — policy text → AST → text round trip.  Property theorems (every `theorem` here is an obligation).
@@ -590,10 +591,27 @@ theorem policy_round_trip_text (mustEscape : Char → Bool) (id : String) (ts : 
     parsePolicy b.id (printPolicy mustEscape b) = parsePolicy id ts := by
   rw [h]; exact policy_parse_print mustEscape b hi
 
-/-- NOT PROVED (kept visible): soundness of `PolicyImage` — on well-formed tokens the policy parser only returns objects
-of the image.  With it `policy_round_trip_text` loses its hypothesis `hi`. -/
+/-- Soundness of `PolicyImage` (statement): on well-formed tokens the policy parser only returns objects of the image. -/
 def PolicyParseImage : Prop :=
   ∀ (id : String) (ts : List Token) (b : TemplateBody), TokWF ts → parsePolicy id ts = some b → PolicyImage b = true
+
+/-- **Soundness of the policy image predicate**: on well-formed tokens (`TokWF`: `IDENTIFIER` tokens have identifier syntax)
+`parsePolicy` only returns `PolicyImage` objects — the annotation list is strictly key-sorted (`foldr insertAnn` of a
+duplicate-free list), every type name after `is` / in an entity literal is valid, the action uids are action-typed, and the
+condition (one clause, or several `when`/`unless` clauses folded with the builder's `and`) is in `ParserImage` and slot-free.
+No arm of the model parser leaves the image.  (Parser-invariant induction: Lemmas/SyntaxPolicySound.lean on top of
+`parseFuel_sound`.) -/
+theorem policy_parse_image : PolicyParseImage := fun id ts b hwf h =>
+  policyOKW_mono (fun _ => typeNameOk_valid) (fun e he => inFrag3_parserImage (sz3 e) e (Nat.le_refl _) he)
+    (parsePolicyF_sound splitOn_joinName _ id ts b hwf h)
+
+/-- **From text, no image hypothesis**: whatever well-formed token list the model parser accepts (any annotations, scope
+forms, any number of `when`/`unless` clauses), printing the result (any escape table) and parsing again gives the same
+object. -/
+theorem policy_round_trip_text_full (mustEscape : Char → Bool) (id : String) (ts : List Token) (hwf : TokWF ts)
+    (b : TemplateBody) (h : parsePolicy id ts = some b) :
+    parsePolicy b.id (printPolicy mustEscape b) = parsePolicy id ts :=
+  policy_round_trip_text mustEscape id ts b h (policy_parse_image id ts b hwf h)
 
 -- non-vacuity: the template
 --   @id("a\"b") permit(principal == ?principal, action, resource is Ns::User in ?resource)
@@ -614,6 +632,19 @@ def samplePolicyTokens : List Token :=
 example : (parsePolicy "p0" samplePolicyTokens).map (·.nonScope) = some samplePolicy.nonScope := by rfl
 example : (parsePolicy "p0" samplePolicyTokens).map (fun b => (b.annotations, b.principalC, b.actionC, b.resourceC)) =
     some ([("id", "a\"b")], .eq .slot, .any, .isIn "Ns::User" .slot) := by rfl
+
+theorem samplePolicyTokens_wf : TokWF samplePolicyTokens := by
+  intro s hs
+  simp only [samplePolicyTokens, List.mem_cons, Token.ident.injEq, reduceCtorEq, false_or, List.mem_nil_iff, or_false] at hs
+  rcases hs with rfl | rfl | rfl | rfl | rfl | rfl | rfl | rfl | rfl | rfl | rfl | rfl | rfl | rfl | rfl | rfl <;> decide
+
+-- non-vacuity of `policy_parse_image` / `policy_round_trip_text_full`: a two-clause text (`when … unless …`)
+example : (parsePolicy "p0" samplePolicyTokens).map PolicyImage = some true := by
+  cases h : parsePolicy "p0" samplePolicyTokens with
+  | none => have : (parsePolicy "p0" samplePolicyTokens).isSome = true := by rfl
+            rw [h] at this; cases this
+  | some b => simp [policy_parse_image "p0" samplePolicyTokens b samplePolicyTokens_wf h]
+example : (parsePolicy "p0" samplePolicyTokens).isSome = true := by rfl
 
 theorem samplePolicy_image : PolicyImage samplePolicy = true := by
   simp [PolicyImage, samplePolicy, policyOKW, sortedAnn, scopeOKW, refOKW, actionOKW, condOKW, validTypeName,
